@@ -1,7 +1,7 @@
 """C06 - Linear / categorical weight constraints (P3 P4 A4 X1 W1 W3 W4 O2)."""
 import ast
 
-from ..model import (AnalysisError, FunctionInfo, expand_aug, orelse_view, dotted, norm_text,
+from ..model import (straightline_value, AnalysisError, FunctionInfo, expand_aug, orelse_view, dotted, norm_text,
                      names_read, const_value, is_none, call_args)
 from ..cfg import CFG, structural_guards
 from ..rules import roles
@@ -209,59 +209,81 @@ def _partial_order(prog, res):
               'partial step is the convex blend step*proj + (1-step)*w',
               'the partial step of the %s projection is not step*projection '
               '+ (1 - step)*weight' % word)
-  # (c) argument pairing and full final pass, 4 calls
-  calls = []
-  for st in ast.walk(ap.node):
-    if isinstance(st, ast.Assign) and isinstance(st.value, ast.Call):
-      r = prog.resolve_call(ap, st.value)
-      if r in (mn, mx):
-        bound, _, _ = call_args(st.value, r.all_params)
-        calls.append((dotted(st.targets[0]), r, bound, st))
+  # (c) argument pairing and full final pass, by value: the returned
+  # expression with every straight-line local replaced by its definition is
+  #   (stack(full_other(partial_kind(unstack(weights)))) + stack(...)) / 2
+  value_of = straightline_value(ap.node)
+  rets = [st for st in ap.node.body if isinstance(st, ast.Return)]
+  if len(rets) != 1 or rets[0].value is None:
+    raise AnalysisError('partial-order projection: expected one return')
+  result = value_of(rets[0].value, rets[0])
+  ts = prog.function(IU + '._topological_sort')
+
+  def is_sorted_indices(e):
+    return isinstance(e, ast.Call) and prog.resolve_call(ap, e) is ts and \
+        e.args and dotted(e.args[0]) == 'key_less_than_values'
+
+  def chain(e):
+    """[(callee, bound args, call)] from the outermost to the innermost
+    projection, and the innermost weights operand"""
+    out = []
+    while isinstance(e, ast.Call) and prog.resolve_call(ap, e) in (mn, mx):
+      r = prog.resolve_call(ap, e)
+      bound, _, _ = call_args(e, r.all_params)
+      out.append((r, bound, e))
+      e = bound.get('weights')
+    return out, e
+  calls = [c for c in ast.walk(result) if isinstance(c, ast.Call) and
+           prog.resolve_call(ap, c) in (mn, mx)]
   if len(calls) != 4:
     raise AnalysisError('partial-order projection: expected 4 min/max calls')
-  for tgt, r, bound, st in calls:
-    mp = bound.get(r.all_params[2])
-    want = 'key_less_than_values' if r is mn else 'key_greater_than_values'
-    res.check(dotted(mp) == want and dotted(bound.get(
-        'sorted_indices')) == 'sorted_indices', 'O2',
-              'partial-order|call:%s@%d' % (r.name, st.lineno - ap.node.lineno),
-              ap.loc(st), '%s receives %s' % (r.name, want),
-              '%s is called with %s instead of %s' % (r.name, norm_text(mp),
-                                                      want))
-  # chains: (first half step) then (full step) of the other kind
-  by_target = {}
-  for tgt, r, bound, st in calls:
-    by_target.setdefault(tgt, []).append((r, const_value(bound.get('step')),
-                                          dotted(bound.get('weights'))))
-  good = len(by_target) == 2
-  for tgt, seq in by_target.items():
+  avg = (isinstance(result, ast.BinOp) and isinstance(result.op, ast.Div) and
+         const_value(result.right) in (2, 2.0) and isinstance(
+             result.left, ast.BinOp) and isinstance(result.left.op, ast.Add))
+  res.check(avg, 'O2', 'partial-order|average', ap.loc(),
+            'result = (min_max + max_min) / 2',
+            'the two feasible chains are not averaged with equal weights')
+  chains = []
+  if avg:
+    for side in (result.left.left, result.left.right):
+      if isinstance(side, ast.Call) and prog.ext_name(
+          ap.module, side.func) == 'tf.stack' and side.args:
+        chains.append(chain(side.args[0]))
+      else:
+        chains.append(chain(side))
+  for seq, _ in chains:
+    first = seq[-1][0] if seq else None
+    for r, bound, call in seq:
+      mp = bound.get(r.all_params[2])
+      want = 'key_less_than_values' if r is mn else 'key_greater_than_values'
+      res.check(dotted(mp) == want and is_sorted_indices(bound.get(
+          'sorted_indices')), 'O2',
+                'partial-order|call:%s-first:%s' % (
+                    'min' if first is mn else 'max', r.name),
+                ap.loc(call), '%s receives %s' % (r.name, want),
+                '%s is called with %s / %s instead of %s and the topological '
+                'order of key_less_than_values' % (
+                    r.name, norm_text(mp), norm_text(bound.get(
+                        'sorted_indices'))[:40], want))
+  good = len(chains) == 2 and {
+      (seq[-1][0] if seq else None) for seq, _ in chains} == {mn, mx}
+  for seq, inner in chains:
     if len(seq) != 2:
       good = False
       continue
-    (r1, s1, w1), (r2, s2, w2) = seq
-    good = good and r1 is not r2 and s2 == 1 and w2 == tgt and \
-        w1 == 'projected_weights' and 0 < (s1 or 0) < 1
+    (r2, b2, _), (r1, b1, _) = seq
+    s1, s2 = const_value(b1.get('step')), const_value(b2.get('step'))
+    start = isinstance(inner, ast.Call) and prog.ext_name(
+        ap.module, inner.func) == 'tf.unstack' and inner.args and dotted(
+            inner.args[0]) == 'weights'
+    good = good and r1 is not r2 and s2 == 1 and bool(start) and \
+        isinstance(s1, (int, float)) and 0 < s1 < 1
   res.check(good, 'O2', 'partial-order|two-pass-chains', ap.loc(),
             'each chain: partial pass of one kind on the input, then a full '
             'pass (step 1) of the other kind on its result',
             'the two-pass chains no longer end with a full-step projection of '
             'the opposite kind; the result need not be feasible')
-  avg = False
-  for st in ast.walk(ap.node):
-    if isinstance(st, ast.Assign) and isinstance(st.value, ast.BinOp) and \
-        isinstance(st.value.op, ast.Div) and const_value(
-            st.value.right) in (2, 2.0):
-      l = st.value.left
-      if isinstance(l, ast.BinOp) and isinstance(l.op, ast.Add) and {
-          dotted(l.left), dotted(l.right)} == set(by_target):
-        avg = True
-  res.check(avg, 'O2', 'partial-order|average', ap.loc(),
-            'result = (min_max + max_min) / 2',
-            'the two feasible chains are not averaged with equal weights')
-  ts = prog.function(IU + '._topological_sort')
-  good = any(isinstance(c, ast.Call) and prog.resolve_call(ap, c) is ts
-             and dotted(c.args[0]) == 'key_less_than_values'
-             for c in ast.walk(ap.node))
+  good = any(is_sorted_indices(c) for c in ast.walk(result))
   res.check(good, 'O2', 'partial-order|toposort', ap.loc(),
             'topological order computed from key_less_than_values',
             'sorted_indices is not the topological order of '
